@@ -4,6 +4,7 @@ import Mathlib.Algebra.BigOperators.Ring.Finset
 import Mathlib.Algebra.BigOperators.Intervals
 import Mathlib.Algebra.Star.Basic
 import Mathlib.Tactic.Ring
+import Mathlib.Data.List.Perm.Basic
 /-!
 Dense algebra of block matrices, in block-structured indices `(block, offset)`.
 
@@ -12,7 +13,7 @@ Dense algebra of block matrices, in block-structured indices `(block, offset)`.
 blocks have the sizes `sz` (`S k c` = weight of the `c`-th index of inner block `k`; `S = 1` for a plain product).
 -/
 namespace TenpyModel.C05
-open Finset
+open Finset TenpyModel.Core
 
 variable {α : Type} [CommRing α]
 
@@ -380,6 +381,7 @@ theorem entry_eye (n i j : Nat) : (Mat.eye n : Mat α).entry i j = if i < n ∧ 
   rw [entry_ofFn]
   by_cases h : i = j <;> by_cases hi : i < n <;> simp [h, hi]
 
+omit [StarRing α] in
 /-- sum over a list with pairwise different keys of the terms of one key: at most one term survives -/
 theorem sum_unique_key {β : Type} (l : List β) (key : β → Nat) (h : l.Pairwise (fun x y => key x ≠ key y))
     (g : β → α) (k : Nat) :
@@ -403,5 +405,155 @@ theorem sum_unique_key {β : Type} (l : List β) (key : β → Nat) (h : l.Pairw
       simp [hx, hz]
     · have : (key x == k) = false := by simpa using hx
       simp [hx, this, ih hp.2]
+
+/-! ### the `have_q_qinds` walk of `qr(mode='complete')` and the sort it relies on -/
+
+omit [StarRing α] [CommRing α] in
+
+/-- `missingQinds bn have`, for an ascending list `have` of pairwise different qindices: exactly the `q < bn` that are
+not in `have`. Generalised statement about the pointer walk. -/
+theorem missingQinds_go_spec (bn : Nat) (haveQ : List Nat) (hs : haveQ.Pairwise (· < ·)) :
+    ∀ (fuel qi x : Nat), qi + fuel = bn → (∀ y ∈ haveQ.drop x, qi ≤ y) → (∀ y ∈ haveQ.take x, y < qi) →
+      ∀ q, q ∈ missingQinds.go bn haveQ fuel qi x ↔ (qi ≤ q ∧ q < bn ∧ q ∉ haveQ) := by
+  intro fuel
+  induction fuel with
+  | zero =>
+    intro qi x hq _ _ q
+    simp only [missingQinds.go, List.not_mem_nil, false_iff]
+    omega
+  | succ fuel ih =>
+    intro qi x hq hdrop htake q
+    simp only [missingQinds.go]
+    by_cases hx : haveQ.getD x bn = qi
+    · simp only [hx, ↓reduceIte]
+      have hxl : x < haveQ.length := by
+        by_contra hc
+        have : haveQ.getD x bn = bn := by
+          simp [List.getD_eq_getElem?_getD, List.getElem?_eq_none (by omega : haveQ.length ≤ x)]
+        omega
+      have hxe : haveQ[x] = qi := by
+        simpa [List.getD_eq_getElem?_getD, List.getElem?_eq_getElem hxl] using hx
+      have hmem : qi ∈ haveQ := hxe ▸ List.getElem_mem hxl
+      rw [ih (qi + 1) (x + 1) (by omega) ?_ ?_ q]
+      · constructor
+        · rintro ⟨h1, h2, h3⟩; exact ⟨by omega, h2, h3⟩
+        · rintro ⟨h1, h2, h3⟩
+          refine ⟨?_, h2, h3⟩
+          by_contra hc
+          have : q = qi := by omega
+          exact h3 (this ▸ hmem)
+      · -- everything after position x is > haveQ[x] = qi
+        intro y hy
+        obtain ⟨j, hj, rfl⟩ := List.mem_iff_getElem.mp hy
+        simp only [List.getElem_drop]
+        have := List.pairwise_iff_getElem.mp hs x (x + 1 + j) hxl (by simp at hj; omega) (by omega)
+        omega
+      · intro y hy
+        rw [List.take_add_one, List.mem_append] at hy
+        rcases hy with hy | hy
+        · have := htake y hy; omega
+        · simp only [List.getElem?_eq_getElem hxl, Option.toList_some, List.mem_singleton] at hy
+          omega
+    · simp only [hx, ↓reduceIte, List.mem_cons]
+      have hnot : qi ∉ haveQ := by
+        intro hm
+        rw [← List.take_append_drop x haveQ, List.mem_append] at hm
+        rcases hm with hm | hm
+        · have := htake qi hm; omega
+        · -- qi ∈ drop x: the head of drop x is ≥ qi and ≠ qi, everything later is larger
+          obtain ⟨j, hj, hjq⟩ := List.mem_iff_getElem.mp hm
+          simp only [List.getElem_drop] at hjq
+          simp only [List.length_drop] at hj
+          have hxl : x < haveQ.length := by omega
+          have hhead : qi ≤ haveQ[x] := hdrop _ (by
+            rw [List.mem_iff_getElem]; exact ⟨0, by simp; omega, by simp⟩)
+          have hne : haveQ[x] ≠ qi := by
+            intro h; apply hx
+            simp [List.getD_eq_getElem?_getD, List.getElem?_eq_getElem hxl, h]
+          rcases Nat.eq_zero_or_pos j with rfl | hjpos
+          · simp at hjq; exact hne hjq
+          · have := List.pairwise_iff_getElem.mp hs x (x + j) hxl (by omega) (by omega)
+            omega
+      rw [ih (qi + 1) x (by omega) ?_ ?_ q]
+      · constructor
+        · rintro (rfl | ⟨h1, h2, h3⟩)
+          · exact ⟨le_refl _, by omega, hnot⟩
+          · exact ⟨by omega, h2, h3⟩
+        · rintro ⟨h1, h2, h3⟩
+          by_cases hq' : q = qi
+          · left; exact hq'
+          · right; exact ⟨by omega, h2, h3⟩
+      · intro y hy
+        have h1 := hdrop y hy
+        have : y ≠ qi := fun h => hnot (h ▸ List.mem_of_mem_drop hy)
+        omega
+      · intro y hy; have := htake y hy; omega
+
+omit [StarRing α] [CommRing α] in
+theorem missingQinds_spec (bn : Nat) (haveQ : List Nat) (hs : haveQ.Pairwise (· < ·)) (q : Nat) :
+    q ∈ missingQinds bn haveQ ↔ (q < bn ∧ q ∉ haveQ) := by
+  unfold missingQinds
+  rw [missingQinds_go_spec bn haveQ hs bn 0 0 (by omega) (by intro y _; omega) (by simp) q]
+  simp
+
+
+
+omit [StarRing α] [CommRing α] in
+theorem insertLE_perm (x : Nat) (l : List Nat) :
+    (insertLE (fun a b => decide (a ≤ b)) x l).Perm (x :: l) := by
+  induction l with
+  | nil => exact List.Perm.refl _
+  | cons y ys ih =>
+    simp only [insertLE]
+    split
+    · exact List.Perm.refl _
+    · exact (List.Perm.cons y ih).trans (List.Perm.swap x y ys)
+
+omit [StarRing α] [CommRing α] in
+theorem insertLE_sorted (x : Nat) (l : List Nat) (h : l.Pairwise (· ≤ ·)) :
+    (insertLE (fun a b => decide (a ≤ b)) x l).Pairwise (· ≤ ·) := by
+  induction l with
+  | nil => simp [insertLE]
+  | cons y ys ih =>
+    have hp := List.pairwise_cons.mp h
+    simp only [insertLE]
+    split
+    · rename_i hxy
+      have hxy : x ≤ y := by simpa using hxy
+      refine List.pairwise_cons.mpr ⟨?_, h⟩
+      intro z hz
+      rcases List.mem_cons.mp hz with rfl | hz
+      · exact hxy
+      · exact le_trans hxy (hp.1 z hz)
+    · rename_i hxy
+      have hyx : y ≤ x := by
+        have : ¬ x ≤ y := by simpa using hxy
+        omega
+      refine List.pairwise_cons.mpr ⟨?_, ih hp.2⟩
+      intro z hz
+      have := (insertLE_perm x ys).mem_iff.mp hz
+      rcases List.mem_cons.mp this with rfl | hz'
+      · exact hyx
+      · exact hp.1 z hz'
+
+omit [StarRing α] [CommRing α] in
+theorem stableSort_perm (l : List Nat) : (stableSort (fun a b => decide (a ≤ b)) l).Perm l := by
+  induction l with
+  | nil => exact List.Perm.refl _
+  | cons x xs ih => exact (insertLE_perm x _).trans (List.Perm.cons x ih)
+
+omit [StarRing α] [CommRing α] in
+theorem stableSort_sorted (l : List Nat) : (stableSort (fun a b => decide (a ≤ b)) l).Pairwise (· ≤ ·) := by
+  induction l with
+  | nil => simp [stableSort]
+  | cons x xs ih => exact insertLE_sorted x _ ih
+
+omit [StarRing α] [CommRing α] in
+theorem stableSort_strict (l : List Nat) (h : l.Nodup) :
+    (stableSort (fun a b => decide (a ≤ b)) l).Pairwise (· < ·) := by
+  have hs := stableSort_sorted l
+  have hn : (stableSort (fun a b => decide (a ≤ b)) l).Nodup := (stableSort_perm l).nodup_iff.mpr h
+  exact (List.Pairwise.and hs hn).imp (fun ⟨h1, h2⟩ => lt_of_le_of_ne h1 h2)
+
 
 end TenpyModel.C05
